@@ -348,6 +348,23 @@ def r2_pb(ctx, repo):
     if wired:
         ic = [f for f in ast.walk(bp) if isinstance(f, ast.FunctionDef) and f.name == m_.group(1)] or \
              ([doe.functions[m_.group(1)]] if m_.group(1) in doe.functions else [])
+    else:
+        # the recoding written in place: np.vectorize(lambda c: <expr>)
+        ml_ = re.match(r"construct_df\(np\.vectorize\((lambda \w+: .+)\)\(pbdesign\(len\(%s\)\)\), \[%s\[_0\] for _0 in %s\]\)$" % ((re.escape(d_),) * 3), rts[0]) if len(rts) == 1 else None
+        if ml_ is not None:
+            try:
+                lam = ast.parse(ml_.group(1), mode="eval").body
+                f_ = ast.FunctionDef(name="__recode", args=lam.args, body=[ast.Return(value=lam.body)], decorator_list=[], returns=None, type_comment=None)
+                ast.copy_location(f_, bp)
+                for n_ in ast.walk(f_):
+                    if isinstance(n_, (ast.expr, ast.stmt)) and not hasattr(n_, "lineno"):
+                        ast.copy_location(n_, bp)
+                ast.fix_missing_locations(f_)
+                from ..normalize import normalize_function
+                ic = [normalize_function(f_)]
+                wired = True
+            except SyntaxError:
+                pass
     if ic and wired:
         table = code_table(ic[0], (-1, 1))
         if table == {-1: 0, 1: 1}:
